@@ -226,4 +226,65 @@ theorem verify_accepts_indexed (H : HashFn) (o : ReadOpts) (codec : Nat) (roots 
     simp [hnn]
   simp [hall]
 
+/-- **`VerifyCar` accepts every indexed CARv2 layout** (any data / index padding, either flag): for every
+    valid payload whose roots are among its blocks, pragma ++ header ++ padding ++ payload ++ padding ++
+    index-of-its-sections passes every rule of `VerifyCar` — header consistency, full hash-verifying
+    scan, roots present, and an index lookup for every non-identity block. -/
+theorem verify_accepts_layout (H : HashFn) (o : ReadOpts) (dp ip : Nat) (fi : Bool) (codec : Nat) (roots : List Cid)
+    (bs : List Block) (rs : List Record) (ix : Index)
+    (hne : roots.isEmpty = false) (hin : (roots.all fun r => bs.any fun b => b.cid == r) = true)
+    (ok : PayloadOK H o (some roots) bs) (h10 : 10 ≤ o.maxHeader)
+    (lok : LayoutOK dp ip (payload (some roots) bs).length)
+    (hix : Index.load codec rs = some ix) (hrec : RecordsOK rs)
+    (hmem : ∀ b ∈ bs, ∃ off, (⟨b.cid, off⟩ : Record) ∈ rs) :
+    verifyCar H o (layoutV2 dp ip (payload (some roots) bs) true fi ix.bytes) = .ok () := by
+  have hp := payload_length_pos (some roots) bs
+  have hscan := scanBlockReader_v2 H o true dp ip (some roots) bs true fi ix.bytes ok h10 lok
+  generalize hn : (payload (some roots) bs).length = n at *
+  have hfw := finalHeader_wf dp ip n true fi hp lok
+  generalize hh : finalHeader dp ip n true fi = hdr at *
+  have hdo : hdr.dataOffset = 51 + dp := by rw [← hh]; rfl
+  have hds : hdr.dataSize = n := by rw [← hh]; rfl
+  have hio : hdr.indexOffset = 51 + dp + n + ip := by rw [← hh]; rfl
+  have e : layoutV2 dp ip (payload (some roots) bs) true fi ix.bytes
+      = pragma ++ (hdr.bytes ++ (zeros dp ++ (payload (some roots) bs ++ (zeros ip ++ ix.bytes)))) := by
+    simp [layoutV2, hn, hh]
+  have hdrop : (layoutV2 dp ip (payload (some roots) bs) true fi ix.bytes).drop (51 + dp + n + ip) = ix.bytes := by
+    have hpre : (pragma ++ (hdr.bytes ++ (zeros dp ++ (payload (some roots) bs ++ zeros ip)))).length = 51 + dp + n + ip := by
+      simp [pragma, pragmaBody, keyVersion, V2Header.bytes_length, zeros_length, hn]; omega
+    have e2 : layoutV2 dp ip (payload (some roots) bs) true fi ix.bytes
+        = (pragma ++ (hdr.bytes ++ (zeros dp ++ (payload (some roots) bs ++ zeros ip)))) ++ ix.bytes := by
+      rw [e]; simp
+    rw [e2, List.drop_left' hpre]
+  unfold verifyCar
+  rw [hscan]
+  rw [e, readHeader_pragma o.maxHeader _ h10]
+  simp only [show ¬ ((2 : Nat) = 1) by decide, ↓reduceIte]
+  rw [readV2Header_bytes _ hfw]
+  simp only [Option.getD_some, hne, Bool.false_eq_true, ↓reduceIte]
+  rw [← e]
+  simp only [hds, hdo, hio]
+  have c1 : ¬ (n = 0) := by omega
+  have c2 : ¬ (51 + dp + n + ip = 0) := by omega
+  have c3 : ¬ (51 + dp < 51) := by omega
+  have c4 : ¬ (51 + dp + n + ip < 51 + n) := by omega
+  simp only [c1, c2, c3, c4, decide_false, Bool.false_or, Bool.and_false, bne_iff_ne, ne_eq, not_false_eq_true,
+    decide_true, Bool.true_and, Bool.or_false, Bool.false_eq_true, ↓reduceIte, hin, Bool.not_true]
+  rw [hdrop]
+  have hrt := index_roundtrip ix (index_load_wf codec _ ix hix hrec) []
+  simp only [List.append_nil] at hrt
+  rw [hrt]
+  simp only
+  have hall : (bs.all fun b => b.cid.isIdentity || !(ix.getAll b.cid).isEmpty) = true := by
+    rw [List.all_eq_true]
+    intro b hb
+    obtain ⟨off, hoff⟩ := hmem b hb
+    have := (index_getAll_load codec _ ix hix hrec.off b.cid off).mpr ⟨⟨b.cid, off⟩, hoff, fun _ => rfl, rfl, rfl⟩
+    have hnn : (ix.getAll b.cid).isEmpty = false := by
+      cases hg : ix.getAll b.cid with
+      | nil => rw [hg] at this; cases this
+      | cons _ _ => rfl
+    simp [hnn]
+  simp [hall]
+
 end Car.Cli
